@@ -398,6 +398,9 @@ class Engine:
         return outs
 
     def int_to_str(self, t):
+        ts = z3.simplify(t)
+        if z3.is_int_value(ts):
+            return z3.StringVal(str(ts.as_long()))  # the decimal text of a literal integer
         return z3.Function("py_str_int", INT, STR)(t)
 
     def ev_Tuple(self, e, st):
